@@ -312,6 +312,23 @@ func (fc *FnCtx) execBody(entry *State, params []Val) (err error) {
 	for i, p := range fn.Params {
 		fc.env[p] = params[i]
 	}
+	if fc.parent == nil && fc.con != nil {
+		// ghost assignments on entry (after the entry snapshot that old() refers to)
+		for _, gi := range fc.con.GhostIncs {
+			fc.cur = entry
+			se := fc.specEnv(fc.con.PkgPath, entry, entry)
+			for k, v := range fc.paramVars {
+				se.vars[k] = v
+			}
+			r, err := se.expr(gi.Ref)
+			if err != nil {
+				return fmt.Errorf("%s: ghostinc: %v", fc.con.Pos, err)
+			}
+			comp := "GH." + gi.Name
+			oldT := fc.getComp(comp, arraySort("Int"))
+			fc.setComp(comp, arraySort("Int"), sto(oldT, r.T, mkAdd(sel(oldT, r.T), "1")))
+		}
+	}
 	if err := fc.analyseLoops(); err != nil {
 		return err
 	}
